@@ -209,6 +209,13 @@ func (e *Env) Generate(v Variant) (*GenResult, error) {
 	}
 	params := cli
 	switch v.C.Fault {
+	case "emptytypes":
+		// no types anywhere, but the parameter is there with an empty / blank value (types=$UNSET)
+		p := filepath.Join(vdir, "config.yaml")
+		if err := ioutil.WriteFile(p, []byte(yaml), 0o644); err != nil {
+			return nil, err
+		}
+		params = append([]string{"config=" + p, "types= "}, params...)
 	case "noconfig":
 	case "missingfile":
 		params = append([]string{"config=" + filepath.Join(vdir, "does-not-exist.yaml")}, params...)
@@ -286,6 +293,19 @@ func (e *Env) Generate(v Variant) (*GenResult, error) {
 			arng = rand.New(rand.NewSource(int64(alt.Perm)*7919 + v.Seed))
 		}
 		ayaml, acli := concretise.Config(ac, l, arng)
+		if alt.EmptyCLI {
+			for _, name := range []string{"types", "exclude_fields", "computed_fields", "required_fields", "sensitive"} {
+				given := false
+				for _, p := range acli {
+					if strings.HasPrefix(p, name+"=") {
+						given = true
+					}
+				}
+				if !given {
+					acli = append(acli, name+"=")
+				}
+			}
+		}
 		ap := filepath.Join(vdir, fmt.Sprintf("config-alt%d.yaml", ai))
 		if err := ioutil.WriteFile(ap, []byte(ayaml), 0o644); err != nil {
 			return nil, err
